@@ -12,10 +12,29 @@ package ontology
 //@ pure func (id ID) String() string
 //@ pure func (r Relationship) GorpKey() string
 
-//@ # well-formed identifiers: the separators do not occur inside the parts (ID.Validate does not
-//@ # enforce this; it is the hypothesis under which the key scheme is exact)
+//@ # well-formed identifiers: the separators do not occur inside the parts. This is the hypothesis
+//@ # under which the key scheme is exact. Since fix d8d2f0a ID.Validate enforces the "->" part of it
+//@ # where resources enter the graph (contracts of Validate and DefineResource below); that a
+//@ # resource TYPE contains no ":" stays an assumption about the registered services' constants.
 //@ spec func wfID(id ID) bool = id.Type != "" && id.Key != "" && !strings.Contains(string(id.Type), ":") && !strings.Contains(string(id.Type), "->") && !strings.Contains(id.Key, "->")
 //@ spec func wfRel(r Relationship) bool = wfID(r.From) && wfID(r.To) && !strings.Contains(string(r.Type), "->")
+
+//@ spec func noSep(id ID) bool = id.Type != "" && id.Key != "" && !strings.Contains(string(id.Type), "->") && !strings.Contains(id.Key, "->")
+//@ func (id ID) Validate() (err error)
+//@   theory strings
+//@   ensures err == nil ==> noSep(id)
+//@   modifies nothing
+//@ # only identifiers without the separator become resources (relationships are only defined
+//@ # between existing resources: validateResourcesExist)
+//@ func (d dagWriter) DefineResource(ctx context.Context, tk ID) (err error)
+//@   theory strings
+//@   ensures err == nil ==> noSep(tk)
+//@   modifies *
+//@ func (d dagWriter) DefineManyResources(ctx context.Context, ids []ID) (err error)
+//@   theory strings
+//@   ensures err == nil ==> (forall i int :: 0 <= i && i < len(ids) ==> noSep(ids[i]))
+//@   modifies *
+//@   loop 0 invariant forall i int :: 0 <= i && i < __ri(0) ==> noSep(ids[i])
 
 //@ # the prefix/suffix handed to the relationship table selects exactly the outgoing / incoming
 //@ # edges of the resource (asserted at the call that receives it)
